@@ -376,7 +376,119 @@ def _state_loop_normal_form(loop, f):
     return target, g
 
 
+def _sentinel_loop_normal_form(loop, f):
+    """`X = None; while X is None: BODY; return X`, where X is assigned (a non-None value) only as the LAST statement of leaves of the if / else tree that ends
+    BODY, is `while True: BODY'` with those assignments turned into `return <value>` — the single-exit spelling of a loop with early returns."""
+    import copy
+    t = loop.test
+    if not (isinstance(t, ast.Compare) and len(t.ops) == 1 and isinstance(t.ops[0], (ast.Is, ast.Eq)) and isinstance(t.left, ast.Name)
+            and isinstance(t.comparators[0], ast.Constant) and t.comparators[0].value is None) or loop.orelse:
+        return None
+    X = t.left.id
+    pm = parent_map(f.node)
+    par = pm.get(loop)
+    blk = None
+    for fld in ("body", "orelse"):
+        b = getattr(par, fld, None)
+        if isinstance(b, list) and loop in b:
+            blk = b
+    if blk is None:
+        return None
+    i = blk.index(loop)
+    if i == 0 or i + 1 >= len(blk):
+        return None
+    prev, nxt = blk[i - 1], blk[i + 1]
+    if not (isinstance(prev, ast.Assign) and any(u(t_) == X for t_ in prev.targets) and isinstance(prev.value, ast.Constant) and prev.value.value is None):
+        return None
+    if not (isinstance(nxt, ast.Return) and isinstance(nxt.value, ast.Name) and nxt.value.id == X):
+        return None
+    fnode = copy.deepcopy(f.node)
+    target = None
+    for n in ast.walk(fnode):
+        if isinstance(n, ast.While) and n.lineno == loop.lineno and n.col_offset == loop.col_offset:
+            target = n
+    if target is None:
+        return None
+    replaced = [0]
+
+    def tail(stmts):
+        if not stmts:
+            return
+        last = stmts[-1]
+        if isinstance(last, ast.Assign) and len(last.targets) == 1 and u(last.targets[0]) == X and not (isinstance(last.value, ast.Constant) and last.value.value is None):
+            stmts[-1] = ast.copy_location(ast.Return(value=last.value), last)
+            replaced[0] += 1
+        elif isinstance(last, ast.If):
+            tail(last.body)
+            tail(last.orelse)
+    tail(target.body)
+    stores = [n for n in ast.walk(target) if isinstance(n, ast.Name) and n.id == X and isinstance(n.ctx, ast.Store)]
+    if not replaced[0] or stores:
+        return None
+    target.test = ast.copy_location(ast.Constant(value=True), target.test)
+    ast.fix_missing_locations(fnode)
+    g = copy.copy(f)
+    g.node = fnode
+    return target, g
+
+
+def _snapshot_loop_normal_form(loop, f):
+    """`while True: s0 = s; SWEEP; if s == s0: return ...` — leave when a whole sweep did not change the state — is the progress-flag loop
+    `while True: improved = False; SWEEP (improved = True next to every assignment of s); if not improved: return ...`.  The two agree when every assignment of s
+    in the sweep changes it, which is what the PROGRESS class demands anyway (acceptance only on a strict gain of a carried potential)."""
+    import copy
+    if not (const(loop.test) is True or u(loop.test) == "True") or loop.orelse or len(loop.body) < 3:
+        return None
+    first = loop.body[0]
+    if not (isinstance(first, ast.Assign) and len(first.targets) == 1 and isinstance(first.targets[0], ast.Name) and isinstance(first.value, ast.Name)):
+        return None
+    s0, s_ = first.targets[0].id, first.value.id
+    exits = [st for st in loop.body[1:] if isinstance(st, ast.If) and not st.orelse and _always_exits(st.body) and isinstance(st.test, ast.Compare) and len(st.test.ops) == 1
+             and isinstance(st.test.ops[0], ast.Eq) and {u(st.test.left), u(st.test.comparators[0])} == {s0, s_}]
+    if len(exits) != 1:
+        return None
+    if sum(1 for n in ast.walk(loop) if isinstance(n, ast.Name) and n.id == s0 and isinstance(n.ctx, ast.Store)) != 1:
+        return None
+    fnode = copy.deepcopy(f.node)
+    target = None
+    for n in ast.walk(fnode):
+        if isinstance(n, ast.While) and n.lineno == loop.lineno and n.col_offset == loop.col_offset:
+            target = n
+    if target is None:
+        return None
+    FLAG = "improved__nf"
+
+    def mark(stmts):
+        out = []
+        for st in stmts:
+            for fld in ("body", "orelse"):
+                b = getattr(st, fld, None)
+                if isinstance(b, list) and b and isinstance(b[0], ast.stmt):
+                    setattr(st, fld, mark(b))
+            out.append(st)
+            if isinstance(st, ast.Assign) and any(isinstance(t_, ast.Name) and t_.id == s_ for t_ in st.targets):
+                out.append(ast.copy_location(ast.Assign(targets=[ast.Name(id=FLAG, ctx=ast.Store())], value=ast.Constant(value=True)), st))
+        return out
+    body = mark(target.body[1:])
+    for st in body:
+        if isinstance(st, ast.If) and isinstance(st.test, ast.Compare) and {u(st.test.left), u(st.test.comparators[0])} == {s0, s_} and not st.orelse:
+            st.test = ast.copy_location(ast.UnaryOp(op=ast.Not(), operand=ast.Name(id=FLAG, ctx=ast.Load())), st.test)
+    target.body = [ast.copy_location(ast.Assign(targets=[ast.Name(id=FLAG, ctx=ast.Store())], value=ast.Constant(value=False)), target.body[0])] + body
+    ast.fix_missing_locations(fnode)
+    g = copy.copy(f)
+    g.node = fnode
+    return target, g
+
+
 def classify_while(loop, f, idx):
+    sp = _snapshot_loop_normal_form(loop, f)
+    if sp is not None:
+        cls_, why = classify_while(sp[0], sp[1], idx)
+        return cls_, "(`s0 = s; sweep; if s == s0: leave` read as the progress-flag loop) " + why
+    sn = _sentinel_loop_normal_form(loop, f)
+    if sn is not None:
+        cls_, why = classify_while(sn[0], sn[1], idx)
+        return cls_, ("(`%s = None; while %s is None: ...; return %s` read as the loop with early returns) " % (loop.test.left.id, loop.test.left.id, loop.test.left.id)) + why
     sf = _state_loop_normal_form(loop, f)
     if sf is not None:
         cls_, why = classify_while(sf[0], sf[1], idx)
@@ -649,10 +761,41 @@ def classify_while(loop, f, idx):
                     if guard and not resets:
                         return "PROGRESS", "exits when `%s` (non-improvement including equality) once the one-way flag %s is set; the continue path updates %s = %s" % (u(cmp_[0]), flag, ob, nb)
         # tolerance
-        exits = [st for st in body_sts if isinstance(st, ast.If) and any(isinstance(s, ast.Return) for s in st.body)]
+        exits = [st for st in body_sts if isinstance(st, ast.If) and (any(isinstance(s, ast.Return) for s in st.body) or any(isinstance(s, ast.Return) for s in st.orelse))]
         tol_params = [p for p in f.params() if "tolerance" in p or "epsilon" in p]
-        uses_tol = [st for st in exits if any(p in {n.id for n in ast.walk(st.test) if isinstance(n, ast.Name)} for p in tol_params)]
-        if uses_tol and all(st in loop.body for st in uses_tol):
+        _bools = {}
+        for st_ in body_sts:
+            if isinstance(st_, ast.Assign) and len(st_.targets) == 1 and isinstance(st_.targets[0], ast.Name):
+                _bools.setdefault(st_.targets[0].id, []).append(st_.value)
+
+        def _test_names(t_):
+            """names in a test, reading a local boolean (`can_expand = A and not B`) through its single definition"""
+            out = set()
+            for n_ in ast.walk(t_):
+                if isinstance(n_, ast.Name):
+                    out.add(n_.id)
+                    if len(_bools.get(n_.id, ())) == 1:
+                        out |= {m_.id for m_ in ast.walk(_bools[n_.id][0]) if isinstance(m_, ast.Name)}
+            return out
+
+        def _on_spine(st_):
+            """reached on every iteration that has not left the loop before: in the loop body, or in the arm of a spine `if` whose other arm always exits"""
+            blk_ = loop.body
+            while True:
+                if st_ in blk_:
+                    return True
+                nxt_ = None
+                for x_ in blk_:
+                    if isinstance(x_, ast.If):
+                        if _always_exits(x_.body) and any(st_ is y_ for y_ in ast.walk(ast.Module(body=x_.orelse, type_ignores=[]))):
+                            nxt_ = x_.orelse
+                        elif x_.orelse and _always_exits(x_.orelse) and any(st_ is y_ for y_ in ast.walk(ast.Module(body=x_.body, type_ignores=[]))):
+                            nxt_ = x_.body
+                if nxt_ is None:
+                    return False
+                blk_ = nxt_
+        uses_tol = [st for st in exits if any(p in _test_names(st.test) for p in tol_params)]
+        if uses_tol and all(_on_spine(st) for st in uses_tol):
             return "TOLERANCE", "no cap; exit test `%s` against the caller's tolerance is evaluated on every iteration (termination not proved)" % u(uses_tol[0].test)[:80]
     return None, (pf_reason or "no exit discipline recognised")
 
